@@ -748,6 +748,70 @@ fn scenario_send_lr<const CHUNKS: usize, const SPLIT2: bool>() {
     core::mem::forget(w);
 }
 
+// Small chains from the initial state (each is a few operations; the long scenarios above exceed
+// 10 GB / 25 min on the shared machine and are kept for reference only).
+
+/// LINK: one frame end to end. write -> pick_up A (symbolic limits) -> A reaches the receiver ->
+/// reader. The frame the real sender emits is accepted by the real receiver at the right place
+/// and the reader gets exactly the written bytes [0, |A|).
+fn scenario_link<const CHUNKS: usize>() {
+    let mut w = World::<1>::new::<CHUNKS>();
+    kani::assume(w.pick(0));
+    assert!(w.start[0] == 0, "fresh data is offered from the start of the stream");
+    w.deliver(0);
+    assert!(w.rcv.available() == w.end[0], "everything delivered is readable");
+    w.reader();
+    kani::cover!(w.end[0] == w.written, "whole content in one frame");
+    kani::cover!(w.end[0] < w.written, "a prefix");
+    core::mem::forget(w);
+}
+
+/// LOSS: write -> pick A (WHOLE: everything sendable / a proper prefix) -> A reported lost ->
+/// the next pick_up with ample limits offers A's bytes again (and only then what follows).
+fn scenario_loss<const CHUNKS: usize, const WHOLE: bool>() {
+    let mut w = World::<1>::new::<CHUNKS>();
+    kani::assume(w.pick(0));
+    let n = w.snd.state.0.len();
+    assert!(n == 1 || n == 2, "shape census: first pick takes everything or splits the pending data");
+    if WHOLE {
+        w.shape::<1, CHUNKS>();
+    } else {
+        w.shape::<2, CHUNKS>();
+    }
+    w.lose(0);
+    assert!(!w.check_completion());
+    w.progress_pick();
+    assert!(w.g != G::Lost, "no byte stays lost after a pick_up with ample limits (one lost segment)");
+    kani::cover!(w.inx[0], "probe byte was in the lost frame");
+    kani::cover!(WHOLE || !w.inx[0], "probe byte behind the lost frame");
+    core::mem::forget(w);
+}
+
+/// ACK: write -> pick A -> A delivered and acknowledged -> completion iff A was everything
+/// written; the next pick_up offers what follows A, never A's bytes again.
+fn scenario_ack<const CHUNKS: usize, const WHOLE: bool>() {
+    let mut w = World::<1>::new::<CHUNKS>();
+    kani::assume(w.pick(0));
+    let n = w.snd.state.0.len();
+    assert!(n == 1 || n == 2, "shape census");
+    if WHOLE {
+        w.shape::<1, CHUNKS>();
+    } else {
+        w.shape::<2, CHUNKS>();
+    }
+    w.copies[0] = 1;
+    if w.inx[0] {
+        w.delivered_x = true;
+    }
+    w.ack(0);
+    let all = w.check_completion();
+    assert!(all == (w.end[0] == w.written), "complete iff the acknowledged frame was everything written");
+    w.progress_pick();
+    kani::cover!(all, "everything acknowledged: flush may complete");
+    kani::cover!(!all, "more to send / written beyond the peer's window");
+    core::mem::forget(w);
+}
+
 macro_rules! scenario_harness {
     ($name:ident, $call:expr) => {
         #[kani::proof]
@@ -760,6 +824,13 @@ macro_rules! scenario_harness {
     };
 }
 
+scenario_harness!(c01_link_c1, scenario_link::<1>());
+scenario_harness!(c01_link_c2, scenario_link::<2>());
+scenario_harness!(c01_send_loss_c1_whole, scenario_loss::<1, true>());
+scenario_harness!(c01_send_loss_c1_split, scenario_loss::<1, false>());
+scenario_harness!(c01_send_ack_c1_whole, scenario_ack::<1, true>());
+scenario_harness!(c01_send_ack_c1_split, scenario_ack::<1, false>());
+scenario_harness!(c01_send_ack_c2_split, scenario_ack::<2, false>());
 scenario_harness!(c01_compose_min_c1_whole, scenario_min::<1, true>());
 scenario_harness!(c01_compose_min_c1_split, scenario_min::<1, false>());
 scenario_harness!(c01_compose_min_c2_split, scenario_min::<2, false>());
